@@ -389,7 +389,13 @@ def check_case(case):
         # ---- the job through the fresh interpreter
         with open(d / "job.pkl", "wb") as f:
             cp.dump(job, f)
-        r = server().ask(dict(op="load_run", pkl=str(d / "job.pkl"), rerun=cfg["rerun"], kind=kind, prog=prog))
+        req = dict(op="load_run", pkl=str(d / "job.pkl"), rerun=cfg["rerun"], kind=kind, prog=prog)
+        r = server().ask(req)
+        if r.get("hang"):
+            # a loaded machine can starve the child beyond CHILD_TIMEOUT: a hang only counts when a
+            # fresh child given four times as long does not answer either
+            LAST["labels"].append("child_retry_after_timeout")
+            r = server().ask(req, timeout=4 * CHILD_TIMEOUT)
         if r.get("hang"):
             sig = SHARED_AUDIT if shared_audit_model(t, cfg, None) else f"child-run-hangs:{kind}:{cfg['worker']}"
             recs.append(dict(signature=sig, observed=f"no reply within {r['timeout']} s", expected=r_in))
